@@ -188,6 +188,19 @@ CHECKS["C18"] = {
     "technique": "z3 regex emptiness on live lexer regexes + CrossHair symbolic str through the lexer + solver-enumerated token vectors through the real parser",
 }
 
+CHECKS["C15"] = {
+    "category": "model_checking",
+    "text": "Eleven documented equivalence laws (f > x == f(!x); f(a) > x == f(a, !x); a > b > c == a > (b > c) == a(b(!c)); "
+            "f() as r == f(!#value as r); $x == * as x in four positions and with category/value suffixes; f(b)=c == f(b, #value=c)) "
+            "instantiated over operand alphabets by a symbolic choice vector (function operand, focus operand, context operand, "
+            "suffix, global gap style, one local gap): every spelling and a re-spaced copy must compile to the same interned object "
+            "with the right focus; identity must survive 3000 intervening compilations. (Z) z3 regex inclusion: every operator "
+            "surrounded by any amount of whitespace is entirely one OPERATOR match (unbounded).",
+    "design_ref": "DESIGN.md section 4, C15",
+    "note": "Bounded choice exploration: the solver enumerates the finite operand/whitespace space and certifies exhaustion; parse runs natively.",
+    "technique": "solver-enumerated operand/whitespace vectors through the real parser (object identity) + z3 regex inclusion for re-spacing",
+}
+
 NOT_YET = {}
 
 
